@@ -68,6 +68,8 @@ pub struct Profile {
     pub borrow_key_pct: u64,
     /// Per 100: a new table's primary key gets the key type of an existing table.
     pub same_key_type_pct: u64,
+    /// Per 100: a primary key is declared with the table-constraint syntax.
+    pub pk_constraint_pct: u64,
     /// Primary keys only at column 0 (what the storage range scan supports).
     pub pk_first_only: bool,
     /// Projections of range queries keep the key column first.
@@ -101,6 +103,7 @@ impl Profile {
             dup_key_pct: 8,
             borrow_key_pct: 0,
             same_key_type_pct: 0,
+            pk_constraint_pct: 0,
             pk_first_only: false,
             key_first_projection: false,
         }
@@ -289,7 +292,9 @@ impl<'a> Gen<'a> {
                 nullable,
             });
         }
-        TableDef { name, cols, pk }
+        // a fifth of the keys is declared as a table constraint `PRIMARY KEY (c)`
+        let pk_constraint = pk.is_some() && self.rng.chance(self.prof.pk_constraint_pct, 100);
+        TableDef { name, cols, pk, pk_constraint }
     }
 
     fn pick_table(&mut self) -> Option<String> {
